@@ -1,5 +1,6 @@
 -- Root of the library: importing every property module makes `lake build` re-check everything.
 import ExprModel.Props.C01
+import ExprModel.Props.C02
 import ExprModel.Props.C03
 import ExprModel.Props.C04
 import ExprModel.Props.C06
